@@ -28,7 +28,9 @@ RULE = ('(1) whole programs (snippets, generated, layout-mutated, commented, mul
         'arguments, with-items, type parameters, def/lambda arguments) re-assembled from program elements and non-ASCII atoms with '
         'generated separator layouts (separator on its own following line at assorted columns incl. the byte/character column where '
         'the previous element ended, trailing separators, comments, blank lines, no line continuations), expected tree = CPython on the '
-        'genuine enclosing construct rebased (cross-checked with the continuation-joined text); all parsed by fst.parsex.parse and FST(text, mode) and compared with the sub-tree of the full '
+        'genuine enclosing construct rebased (cross-checked with the continuation-joined text); every non-ASCII phrase is also parsed '
+        'as its ASCII twin (non-ASCII characters of names/strings/comments replaced by x) in the sequence, single-element and `all` modes: '
+        'acceptance, node kinds and CHARACTER positions must coincide (transliteration invariance, which CPython has); all parsed by fst.parsex.parse and FST(text, mode) and compared with the sub-tree of the full '
         'program rebased to the fragment (lines minus start line, first-line byte columns minus start column); a fragment counts '
         'as "must be accepted" only if CPython accepts it embedded in the genuine construct with the same structure; (3) malformed '
         'stream: the 46 strings of tests/data/data_parse_invalid_src.txt plus generated wrapper escapes / wrong-category strings '
@@ -352,6 +354,43 @@ def _frag_worker(arg):
     return out
 
 
+def _outcome(px, T, mode):
+    try:
+        r = px.parse(T, mode)
+    except SyntaxError:
+        return ('raised',)
+    except RecursionError:
+        return None
+    except Exception as e:
+        return ('crash', type(e).__name__)
+    return ('tree', F.char_shape(r, T))
+
+
+def _meta_check(fam, T):
+    """transliteration invariance: replacing non-ASCII characters (in names / strings / comments) by ASCII ones changes the
+    byte geometry but not the tokens, so acceptance, result kind and all positions counted in CHARACTERS must stay the same
+    (CPython's parser has this invariance; every byte/character confusion in the position fix-ups breaks it)"""
+    out = []
+    if T.isascii() or F.redos_risk(T) or '\r' in T:
+        return out
+    A = F.ascii_twin(T)
+    px = _px()
+    for mode in F.META_MODES.get(fam, ()):
+        o1, o2 = _outcome(px, T, mode), _outcome(px, A, mode)
+        if o1 is None or o2 is None:
+            continue
+        res = {'mode': mode, 'kind': 'phrase:' + fam, 'variant': 'base', 'text': T, 'must': False, 'meta': True}
+        if o1 != o2:
+            if o1[0] != o2[0]:
+                d = f'{o1[0]} with the non-ASCII text, {o2[0]} with its ASCII twin {A!r}'
+            else:
+                d = 'character positions / node kinds differ from the ASCII twin: ' + _fd(str(o1[1]), str(o2[1]))
+            res['fail'] = ('nonascii-changes-outcome', d)
+            res['expected'] = None
+        out.append(res)
+    return out
+
+
 def _phrase_worker(arg):
     src, seed, n, var_frac = arg
     rng = random.Random(seed)
@@ -363,6 +402,7 @@ def _phrase_worker(arg):
             P = None
     out = []
     for fam, T in F.phrase_texts(P, rng, n):
+        out.extend(_meta_check(fam, T))
         for fr in F.phrase_frags(fam, T):
             if isinstance(fr, tuple):
                 out.append({'mode': fr[1], 'kind': 'phrase:' + fam, 'variant': 'base', 'text': T, 'skip': 'oracle-disagree'})
@@ -1075,6 +1115,10 @@ def replay(ctx, data):
         return
     from fst import FST
     cls = w.get('class', '')
+    if cls == 'nonascii-changes-outcome':
+        if _outcome(px, T, mode) != _outcome(px, F.ascii_twin(T), mode):
+            ctx.fail('replay', f'parse({T!r}, {mode!r}) behaves differently from its ASCII twin', w)
+        return
     try:
         r = px.parse(T, mode)
     except Exception as e:
